@@ -31,7 +31,21 @@ def main(argv) -> int:
             import construct  # noqa: F401
             import han.autodecoder, han.dlde, han.hdlc, han.meter_connection  # noqa: F401,E401
 
-            print(f"setup ok: han from {repo}, python {sys.version.split()[0]}")
+            # trusted base sanity: published check values of the two CRCs, and a captured frame
+            from dst.world import hdlc_ref, p1_ref
+
+            assert hdlc_ref.fcs16_bits(b"123456789") == 0x906E, "FCS-16 (CRC-16/X-25) check value"
+            assert p1_ref.crc16_arc_bits(b"123456789") == 0xBB3D, "CRC-16/ARC check value"
+            frame = bytes.fromhex("a00a01020110141e")  # not necessarily valid: only exercises parse_header
+            assert hdlc_ref.parse_header(hdlc_ref.build_frame(b"\x03", b"\x21", 0x13, b"abc")).control == 0x13
+            assert hdlc_ref.is_intact(hdlc_ref.build_frame(b"\x03", b"\x21", 0x13, b"abc"))
+            assert hdlc_ref.unstuff(hdlc_ref.stuff(bytes(range(256)))) == bytes(range(256))
+            del frame
+            captured = ["a00c0102011027a00201e7de", "a02a410883130413e6e7000f40000000000101020309060100010700ff060000067d02020f00161b1c05",
+                        "a027010201105a87e6e7000f40000000090c07e4020f06011922ff8000000201060000157eea5e"]
+            assert all(hdlc_ref.is_intact(bytes.fromhex(h)) for h in captured), "captured frames must be intact by the reference predicate"
+            assert hdlc_ref.is_intact(hdlc_ref.unstuff(bytes.fromhex("a00d0102011063ab7d5e7d5d7d23932d")))
+            print(f"setup ok: han from {repo}, python {sys.version.split()[0]}; trusted-base CRC check values ok")
             return 0
         if args.target == "selftest":
             from dst.core import selftest
